@@ -20,7 +20,7 @@ let () =
       let line = input_line ic in
       match String.split_on_char ' ' (String.trim line) with
       | id :: toks ->
-          let flags = ref 0 and args = ref [] and argv = ref [] and pinned = ref false and tolerated = ref [] and unsupported = ref false in
+          let flags = ref 0 and args = ref [] and ops = ref [] and argv = ref [] and pinned = ref false and tolerated = ref [] and unsupported = ref false in
           List.iter (fun t ->
               if starts "H:f=" t then flags := int_of_string (after "H:f=" t)
               else if starts "arg:" t then begin
@@ -30,8 +30,10 @@ let () =
                     let init = List.fold_left (fun acc o -> if starts "init=" o then after "init=" o = "1" else acc)
                         false opts in
                     if List.mem "try" opts then tolerated := slot :: !tolerated;
-                    args := (spec, slot, init) :: !args
+                    args := (spec, slot, init) :: !args;
+                    ops := `Def (spec, slot) :: !ops
                 | _ -> () end
+              else if starts "probe:" t then ops := `Probe (unhex (after "probe:" t)) :: !ops
               else if starts "argv:" t then
                 argv := List.map unhex (List.filter (fun x -> x <> "-") (String.split_on_char ',' (after "argv:" t)))
               else if starts "S:" t then unsupported := true      (* sub-group arguments: outside the model *)
@@ -51,10 +53,36 @@ let () =
           let slots = List.sort compare (List.map (fun (_, s, i) -> (s, i)) args) in
           let show hit = String.concat " " (List.map (fun (s, i) ->
               Printf.sprintf "%s=%d" s (if Some s = hit then (if i then 0 else 1) else (if i then 1 else 0))) slots) in
+          let key_of_word w =
+            if String.length w >= 2 && w.[0] = '-' then
+              (if w.[1] = '-' then parse_key (str_of_string (after "--" w))
+               else if String.length w = 2 then Ok (key_of_char (n_of_int (Char.code w.[1])))
+               else Err EOther)
+            else Err EOther in
+          (* look-ups between the definitions: the staged model run_ops (ArgH/TableOps.v) *)
+          let has_probe = List.exists (function `Probe _ -> true | _ -> false) !ops in
+          let staged =
+            if not has_probe then Some ""
+            else begin
+              let bad = ref false in
+              let tops = List.filter_map (function
+                  | `Def (spec, slot) ->
+                      (match parse_key (str_of_string spec) with
+                       | Ok k -> Some (TDef (k, slot, List.mem slot !tolerated))
+                       | _ -> if List.mem slot !tolerated then None else (bad := true; None))
+                  | `Probe w ->
+                      (match key_of_word w with Ok k -> Some (TProbe k) | _ -> bad := true; None)) (List.rev !ops) in
+              if !bad then None else
+              match run_ops abbr [] tops with
+              | None -> None
+              | Some (ps, _) ->
+                  Some (" probes=" ^ String.concat "," (List.map (function
+                      | Ok (Some slot) -> slot | Ok None -> "none" | _ -> "amb") ps))
+            end in
           if !unsupported then Printf.printf "%s unsupported ##\n" id else
-          (match build [] args with
-           | None -> Printf.printf "%s setup ##\n" id
-           | Some t ->
+          (match build [] args, staged with
+           | None, _ | _, None -> Printf.printf "%s setup ##\n" id
+           | Some t, Some probes ->
                (match !argv with
                 | [w] when String.length w >= 2 && w.[0] = '-' ->
                     let k = if w.[1] = '-' then parse_key (str_of_string (after "--" w))
@@ -64,11 +92,11 @@ let () =
                      | Ok k ->
                          let r = if !pinned then find_arg_pinned abbr t k None else find_arg abbr t k in
                          (match r with
-                          | Ok (Some slot) -> Printf.printf "%s ok %s ##\n" id (show (Some slot))
-                          | Ok None -> Printf.printf "%s err ## unknown\n" id
-                          | _ -> Printf.printf "%s err ## ambiguous\n" id)
-                     | _ -> Printf.printf "%s err ## key\n" id)
-                | [] -> Printf.printf "%s ok %s ##\n" id (show None)
+                          | Ok (Some slot) -> Printf.printf "%s ok %s%s ##\n" id (show (Some slot)) probes
+                          | Ok None -> Printf.printf "%s err%s ## unknown\n" id probes
+                          | _ -> Printf.printf "%s err%s ## ambiguous\n" id probes)
+                     | _ -> Printf.printf "%s err%s ## key\n" id probes)
+                | [] -> Printf.printf "%s ok %s%s ##\n" id (show None) probes
                 | _ -> Printf.printf "%s unsupported ##\n" id))
       | [] -> ()
     done
